@@ -250,7 +250,7 @@ func genC05b(g *Gen) {
 		}
 	}
 	// long-lived instances: hundreds of rejected inputs, then accepted ones (the N-th use behaves like the first)
-	bad := []string{"(((1 +", "2 * (3 + ", "f(1, (2", "a[", "((((((((", "NOT", "Min(((a)", "{{#a}}{{#a}}x", "{{#a}}", "{{/a}}", "{{a"}
+	bad := []string{strings.Repeat("(", 45) + "1 +", strings.Repeat("{{#a}}", 40), strings.Repeat("f(", 30) + "1, ", "(((1 +", "2 * (3 + ", "f(1, (2", "a[", "((((((((", "NOT", "Min(((a)", "{{#a}}{{#a}}x", "{{#a}}", "{{/a}}", "{{a"}
 	good := map[string][]string{"parser": {"(1 + 2) * Max(3, 4)", "a[1] + (b)"}, "calculator": {"(1 + 2) * Max(3, 4)", "((a)) + b"}, "template": {"{{#a}}x{{#a}}y{{/a}}{{/a}}", "Hello, {{NAME}}!"}}
 	for _, what := range []string{"parser", "calculator", "template"} {
 		for rep := 0; rep < g.Pick(1, 4); rep++ {
